@@ -27,7 +27,7 @@ class HeapCheck(fw.Check):
         for _ in range(n):
             g = hc.Gen(random.Random(rng.randrange(1 << 60)),
                        max_ops=self.max_ops if tier == "quick" else 80)
-            out.append({"ops": g.history()})
+            out.append({"ops": g.history(), "q": hc.q_plan(g.rng)})
         out.extend(self.odd_histories(tier, rng))
         return out
 
@@ -43,14 +43,14 @@ class HeapCheck(fw.Check):
         out = []
         for _ in range(n):
             g = hc.Gen(random.Random(rng.randrange(1 << 60)), max_ops=30, odd=True, nan=self.odd_nan)
-            out.append({"ops": g.history(), "oracle_only": True})
+            out.append({"ops": g.history(), "oracle_only": True, "q": hc.q_plan(g.rng)})
         return out
 
     def generate(self, tier, rng):
         return self.histories(tier, rng)
 
     def impl(self, case):
-        trace, done = hc.run_history(case["ops"])
+        trace, done = hc.run_history(case["ops"], case.get("q"))
         return {"trace": trace, "done": done}
 
     def model_requests(self, case, obs):
@@ -71,13 +71,32 @@ class HeapCheck(fw.Check):
                 out.append("op %d %s: implementation %s, model %s"
                            % (k, obs["done"][k], step["out"], m["out"]))
                 break
-            if step["snap"] != m["snap"]:
-                diff = [i for i, (a, b) in enumerate(zip(step["snap"], m["snap"])) if a != b]
+            msnap, mdocs = hc.split_docs(m["snap"])
+            if step["snap"] != msnap:
+                diff = [i for i, (a, b) in enumerate(zip(step["snap"], msnap)) if a != b]
                 out.append("op %d %s: snapshots differ at objects %s: implementation %s, model %s"
                            % (k, obs["done"][k], diff,
-                              [step["snap"][i] for i in diff[:3]], [m["snap"][i] for i in diff[:3]]))
+                              [step["snap"][i] for i in diff[:3]], [msnap[i] for i in diff[:3]]))
+                break
+            # the derived query .document, wherever the query plan asked it (Model/HeapQuery.lean)
+            bad = hc.doc_disagreements(step.get("q"), mdocs)
+            if bad:
+                out.append("after op %d %s: %s" % (k, obs["done"][k], "; ".join(bad[:3])))
                 break
         return out
+
+    @staticmethod
+    def doc_oracle(trace, done, brk, snap_of=lambda s: s):
+        """`an object's document is the root of its parent chain` on every well-formed snapshot of
+        the history, for every object the query plan asked (hc.doc_failures); path and traversal
+        queries have to terminate."""
+        for k, step in enumerate(trace):
+            if brk is not None and k >= brk:
+                break
+            fails = hc.doc_failures(snap_of(step["snap"]), step.get("q"))
+            if fails:
+                return ["after op %d %s (%s): %s" % (k, done[k], step["out"], f) for f in fails[:3]]
+        return []
 
     def tag(self, case, obs):
         tr = obs.get("trace", [])
@@ -325,6 +344,18 @@ class XWorld(hc.World):
                                 continue
                             if related(b, s) or related(t, a) or related(t, b) or related(s, a):
                                 return False
+            op["old_target"] = None
+            if x.parent is not None and x.link is not None:
+                # a new link that is refused by the merge makes the setter resolve the stored link
+                # again (fix 06cfd75): what its path finds now
+                try:
+                    found = x.get_section_by_path(x.link)
+                    h = self.handle_of(found)
+                    if h == "?" or self.kind(found) != "sec":
+                        return False
+                    op["old_target"] = h
+                except Exception:
+                    op["old_target"] = None
             if x.parent is not None:
                 pairs = self.clean_scope(x)
                 if pairs is None:
@@ -403,9 +434,10 @@ def resolve_x(w, op):
     return op
 
 
-def run_history_x(ops):
+def run_history_x(ops, plan=None):
     w = XWorld()
     trace, done, skipped = [], [], 0
+    qs = hc.Queries(plan)
     for op in ops:
         if op["op"] in ("mirror", "twin"):
             steps = hc.expand(w, op)
@@ -423,8 +455,12 @@ def run_history_x(ops):
                 out = "RecursionError"
             except Exception as exc:
                 out = fw.exc_name(exc)
-            trace.append({"out": out, "snap": w.snapshot()})
+            snap = w.snapshot()
+            trace.append({"out": out, "snap": snap, "q": qs.after(w, snap)})
             done.append(cop)
+            if qs.cyclic:
+                return trace, done, skipped
+    qs.finish(w, trace)
     return trace, done, skipped
 
 
@@ -485,6 +521,45 @@ class GenX(hc.Gen):
                 ops.append({"op": "set_parent", "x": self.child_of(sch()), "np": cch()})
         return ops
 
+    def clash_block(self):
+        """A merge / link assignment whose source is built around the destination: some of its
+        children get the name of a child of the destination (a Section of the same or of the other
+        type, a Property), the others a name of their own; children on either side are empty (a
+        placeholder: falsy) or filled. Every way merge_check / the name check / merge itself can
+        look at a pair of children - found by name, by name and type, by truthiness - is asked."""
+        r = self.rng
+        dest = hc.P(r, "sec")
+        src = self.attrs(self.construct("sec", False))
+        src.update({"name": r.choice(["src", "m", "n", "a"]), "args_ok": True, "mark": "clash_src",
+                    "parent": r.choice([hc.parent_of(dest), hc.P(r, "doc"), hc.P(r, "doc", "sec"), None])})
+        ops = [src]
+        S = hc.last("clash_src")
+        for _ in range(r.randrange(1, 4)):
+            kind = r.choice(["sec", "sec", "prop"])
+            ch = self.attrs(self.construct(kind, False))
+            ch.update({"parent": S, "args_ok": True})
+            if r.random() < 0.75:
+                ch["name"] = {"nameof": self.child_of(dest)}
+            ops.append(ch)
+            if kind == "sec" and r.random() < 0.35:
+                # the source's child is not empty
+                g = self.attrs(self.construct(r.choice(["sec", "prop"]), False))
+                g.update({"parent": hc.last("made"), "args_ok": True})
+                ops.append(g)
+        if r.random() < 0.4:
+            # a placeholder at the destination: an empty Section / a Property with the name of a
+            # child of the source, of either type
+            ph = self.attrs(self.construct(r.choice(["sec", "sec", "prop"]), False))
+            ph.update({"parent": dest, "args_ok": True, "name": {"nameof": self.child_of(S)}})
+            ops.append(ph)
+        if r.random() < 0.6:
+            ops.append({"op": "merge", "dest": dest, "src": S, "strict": r.random() < 0.5})
+        else:
+            ops.append({"op": "set_link", "x": dest, "tsym": S, "absolute": r.random() < 0.8, "val": "path"})
+        if r.random() < 0.3:
+            ops.append({"op": "clean", "x": r.choice([dest, hc.parent_of(dest)])})
+        return ops
+
     def history(self):
         r = self.rng
         P = hc.P
@@ -520,9 +595,11 @@ class GenX(hc.Gen):
                     else:
                         ops.append({"op": "set_parent", "x": {"last": True}, "np": cont()})
                     ops.extend(self.after_clone())
-            elif c < 0.76:
+            elif c < 0.72:
                 ops.append({"op": "merge", "dest": sec(), "src": sec(), "strict": r.random() < 0.5})
-            elif c < 0.90:
+            elif c < 0.80:
+                ops.extend(self.clash_block())
+            elif c < 0.91:
                 ops.append({"op": "set_link", "x": sec(), "tsym": sec(), "absolute": r.random() < 0.8,
                             "val": r.choice(["path", "path", "path", "path", "none", "falsy"])})
             else:
@@ -542,14 +619,16 @@ class C03(HeapCheck):
         "wf_step_ext", "wf_run_ext", "wf_reachable", "ext_step_refines", "ext_run_refines",
         "parent_chain_terminates_ext", "not_own_ancestor_ext", "in_exactly_one_list_ext",
         "document_is_chain_root_ext", "clone_detached", "clone_fresh", "clone_then_attach_wf",
-        "merge_only_adds", "merge_keeps_existing", "clean_only_detaches", "clone_terminates"]]
+        "merge_only_adds", "merge_keeps_existing", "clean_only_detaches", "clone_terminates",
+        # the .document query itself (Model/HeapQuery.lean), compared between the operations
+        "document_query_is_chain_root", "document_query_is_chain_root_ext", "document_query_none"]]
     quick_n = 1500
     thorough_n = 40000
     case_timeout = 10
     trusted_base = [
         "Lean 4.33.0 kernel; axioms propext, Classical.choice, Quot.sound only (audited per theorem)",
-        "hand-written models lean/OdmlModel/Model/Heap.lean and Model/HeapExt.lean, tied to /repo by this "
-        "correspondence run",
+        "hand-written models lean/OdmlModel/Model/Heap.lean, Model/HeapExt.lean and Model/HeapQuery.lean "
+        "(the .document query), tied to /repo by this correspondence run",
         "Driver/HeapCommon.lean + Driver/C03.lean JSON glue; harness/framework.py, heapcommon.py, c03.py",
     ]
     assumptions = [
@@ -581,7 +660,11 @@ class C03(HeapCheck):
             "added once more to its own container; after clone+attach operations between original and copy; "
             "and oracle-only histories (no model requests) whose names / ids / positions are not texts / "
             "machine ints (int, bool, float, NaN, bytes, tuple, None) or that start from a document loaded "
-            "from YAML / JSON / XML text. Non-trivial = at least 5 "
+            "from YAML / JSON / XML text. Since seeded round 4: a query plan per history (.document of "
+            "every / some / no object between the operations, compared with Model/HeapQuery.lean and with the "
+            "root of the parent chain; get_path / traversals / absolute lookups have to come back), chains of "
+            "nested Sections moved by every route, Properties without values, merge / link sources built "
+            "around the destination's child names (empty or filled, same or other type). Non-trivial = at least 5 "
             "executed ops of at least 3 kinds (extended histories: at least one extended operation); distinct "
             "= distinct canonical JSON of the history.")
 
@@ -592,13 +675,14 @@ class C03(HeapCheck):
             cases.append({"extra": True, "seed": rng.randrange(1 << 60)})
         nx = 700 if tier == "quick" else 10000
         for _ in range(nx):
-            cases.append({"xops": GenX(random.Random(rng.randrange(1 << 60))).history()})
+            g = GenX(random.Random(rng.randrange(1 << 60)))
+            cases.append({"xops": g.history(), "q": hc.q_plan(g.rng)})
         return cases
 
     # -- extra stream: clone / merge / link+clean, oracle only -----------------
     def impl(self, case):
         if "xops" in case:
-            trace, done, skipped = run_history_x(case["xops"])
+            trace, done, skipped = run_history_x(case["xops"], case.get("q"))
             return {"x": True, "trace": trace, "done": done, "skipped": skipped}
         if not case.get("extra"):
             return HeapCheck.impl(self, case)
@@ -706,7 +790,7 @@ class C03(HeapCheck):
     @staticmethod
     def brief(op):
         return dict((k, v) for k, v in op.items()
-                    if k not in ("ty", "sec_bad", "prop_bad", "eq", "rel_bad", "fresh"))
+                    if k not in ("ty", "sec_bad", "prop_bad", "eq", "rel_bad", "fresh", "q"))
 
     def compare_x(self, obs, model):
         brk, _ = hc.first_wf_break([{"snap": oracle_snap(s["snap"])} for s in obs["trace"]])
@@ -716,7 +800,8 @@ class C03(HeapCheck):
             op = self.brief(obs["done"][k])
             if (step["out"] == "ok") != (m["out"] == "ok"):
                 return ["op %d %s: implementation %s, model %s" % (k, op, step["out"], m["out"])]
-            a, b = step["snap"], m["snap"]
+            a = step["snap"]
+            b, mdocs = hc.split_docs(m["snap"])
             if len(a) != len(b):
                 return ["op %d %s: implementation created %d objects so far, model %d"
                         % (k, op, len(a), len(b))]
@@ -725,6 +810,9 @@ class C03(HeapCheck):
             if diff:
                 return ["op %d %s: snapshots differ at objects %s: implementation %s, model %s"
                         % (k, op, diff, [a[i] for i in diff[:3]], [b[i] for i in diff[:3]])]
+            bad = hc.doc_disagreements(step.get("q"), mdocs)
+            if bad:
+                return ["after op %d %s: %s" % (k, op, "; ".join(bad[:3]))]
         return []
 
     def tag(self, case, obs):
@@ -750,9 +838,30 @@ class C03(HeapCheck):
             return " [the name of the added object is NaN]"
         return ""
 
+    RELINK_NOTE = " [a refused link assignment resolves the stored link again, which is refused as well]"
+
+    def relink_note(self, obs, k):
+        """Marks the one shape of the known finding refused-link-reresolved-without-end: a path is
+        assigned to `.link` of an attached Section that has a link stored already, the path and the
+        stored link both lead to a Section, and nothing has changed when the RecursionError arrives
+        (both merges were refused: the `except` branch of the setter assigns the stored link again,
+        whose `except` branch does the same, and so on)."""
+        op = obs["done"][k]
+        if k == 0 or op["op"] != "set_link" or op.get("val") != "path":
+            return ""
+        before, after = obs["trace"][k - 1]["snap"], obs["trace"][k]["snap"]
+        x = op["x"]
+        if op.get("target") is None or op.get("old_target") is None or x >= len(before) or before[x] is None:
+            return ""
+        if before[x]["link"] and before[x]["parent"] is not None and before == after:
+            return self.RELINK_NOTE
+        return ""
+
     def finding_key(self, case, obs, failure):
         if case.get("oracle_only") and failure.endswith(" [the name of the added object is NaN]"):
             return "nan-name-readded"
+        if "xops" in case and failure.endswith("did not terminate (RecursionError)" + self.RELINK_NOTE):
+            return "refused-link-reresolved-without-end"
         return None
 
     def oracle(self, case, obs):
@@ -769,7 +878,10 @@ class C03(HeapCheck):
                        for f in fails[:4] if "duplicate" not in f and "empty name" not in f]
             for k2, step in enumerate(obs["trace"]):
                 if step["out"] == "RecursionError":
-                    out.append("op %d %s did not terminate (RecursionError)" % (k2, self.brief(obs["done"][k2])))
+                    out.append("op %d %s did not terminate (RecursionError)%s"
+                               % (k2, self.brief(obs["done"][k2]), self.relink_note(obs, k2)))
+            if not out:
+                out = self.doc_oracle(obs["trace"], [self.brief(op) for op in obs["done"]], k, oracle_snap)
             return out
         k, fails = hc.first_wf_break(obs["trace"])
         out = []
@@ -780,6 +892,8 @@ class C03(HeapCheck):
         for k2, step in enumerate(obs["trace"]):
             if step["out"] == "RecursionError":
                 out.append("op %d %s did not terminate (RecursionError)" % (k2, obs["done"][k2]))
+        if not out:
+            out = self.doc_oracle(obs["trace"], obs["done"], k)
         return out
 
 
